@@ -463,6 +463,10 @@ impl SimNode {
     self.ev.verif_writer_view(w.guid.entity_id)
   }
 
+  pub fn writer_view_by_eid(&self, eid: [u8; 4]) -> Option<WriterView> {
+    self.ev.verif_writer_view(EntityId::from_slice(eid))
+  }
+
   pub fn writer_history_payload(&self, w: &LocalWriter, sn: i64) -> Option<Vec<u8>> {
     self.ev.verif_writer_history_payload(w.guid.entity_id, sn)
   }
